@@ -58,6 +58,7 @@ fn check(prop: &str, tier: Tier) -> i32 {
         "C06" => props::ide_sweep::run(props::ide_sweep::Which::C06, tier),
         "C10" => props::ide_sweep::run(props::ide_sweep::Which::C10, tier),
         "C20" => props::ide_sweep::run(props::ide_sweep::Which::C20, tier),
+        "C15" => props::messages::run(tier),
         "C11" => props::history::run(tier),
         "C12" => props::cancel::run(tier),
         "C13" => props::positions::run_c13(tier),
@@ -87,6 +88,7 @@ fn replay(path: &str) -> i32 {
         "C06" => props::ide_sweep::replay(props::ide_sweep::Which::C06, w),
         "C10" => props::ide_sweep::replay(props::ide_sweep::Which::C10, w),
         "C20" => props::ide_sweep::replay(props::ide_sweep::Which::C20, w),
+        "C15" => props::messages::replay(w),
         "C11" => props::history::replay(w),
         "C12" => props::cancel::replay(w),
         "C13" => props::positions::replay_c13(w),
